@@ -66,7 +66,7 @@ LEVEL_NOTE = ("Trusted: Coq kernel; hand-written model Model/Json.v tied by per-
 # ============================================================ tagged values
 # ["n"] | ["b", 0/1] | ["i", int] | ["f", "nan"|"inf"|"-inf"|float.hex()] | ["s", [cp...]]
 # ["a", [v...]] | ["o", [[key, v]...]]   key: ["s", cps] or any scalar tag or ["y", hex] (bytes)
-# rich: ["P", cps] Path | ["D", y, m, d] date | ["T", h, m, s, us] time | ["S", [v...]] set
+# rich: ["DT", y, m, d, H, M, S, us, utc offset in minutes | None] datetime | ["P", cps] Path | ["D", y, m, d] date | ["T", h, m, s, us] time | ["S", [v...]] set
 #       ["C", fre, fim] complex | ["X", v] extension object | ["U"] unsupported object
 
 class ExtObj(object):
@@ -128,6 +128,10 @@ def to_py(t):
     if k == "T":
         from datetime import time
         return time(t[1], t[2], t[3], t[4])
+    if k == "DT":
+        from datetime import datetime, timezone, timedelta
+        tz = None if t[8] is None else (timezone.utc if t[8] == 0 else timezone(timedelta(minutes=t[8])))
+        return datetime(t[1], t[2], t[3], t[4], t[5], t[6], t[7], tzinfo=tz)
     if k == "S":
         return set(to_py(x) for x in t[1])
     if k == "C":
@@ -161,6 +165,9 @@ def to_tag(o):
         return ["y", o.hex()]
     if isinstance(o, Path):
         return ["P", [ord(c) for c in str(o)]]
+    if type(o).__name__ == "datetime" and isinstance(o, date):
+        off = None if o.tzinfo is None else int(o.utcoffset().total_seconds() // 60)
+        return ["DT", o.year, o.month, o.day, o.hour, o.minute, o.second, o.microsecond, off]
     if type(o) is date:
         return ["D", o.year, o.month, o.day]
     if type(o) is time and o.tzinfo is None:
@@ -229,6 +236,14 @@ def documented(t, jd, promised=False):
         if jd in ("ext", "ext_only"):
             return ["o", [[_str_tag("ext"), documented(t[1], jd, promised)], [_str_tag("kind"), _str_tag("X")]]]
         raise KeyError("unsupported")
+    if k == "DT":
+        # a datetime is a date: documented encoding isoformat() (orjson writes it natively, whatever json_default is)
+        s = "%04d-%02d-%02dT%02d:%02d:%02d" % tuple(t[1:7])
+        if t[7]:
+            s += ".%06d" % t[7]
+        if t[8] is not None:
+            s += "%s%02d:%02d" % ("+" if t[8] >= 0 else "-", abs(t[8]) // 60, abs(t[8]) % 60)
+        return _str_tag(s)
     if k in ("D", "T"):
         if promised and jd == "ext_only":
             raise KeyError("unsupported")
@@ -438,7 +453,19 @@ def _one_run(case, text):
     _output.Logger._destinations = dests
     kw = {}
     default = _make_default(jd)
-    if default is not None:
+    if default is not None and case.get("via_encoder"):
+        # the deprecated spelling: a JSONEncoder subclass (of the stdlib class, or of eliot's own) whose default() does it
+        import json as _json
+        import warnings
+        from eliot.json import EliotJSONEncoder
+        warnings.simplefilter("ignore", DeprecationWarning)
+        base = EliotJSONEncoder if case["via_encoder"] == "eliot" else _json.JSONEncoder
+
+        class CallerEncoder(base):
+            def default(self, o):
+                return default(o)
+        kw["encoder"] = CallerEncoder
+    elif default is not None:
         kw["json_default"] = default
     out = {"probe": probe, "groups": groups, "ctor_error": None}
     msgs = [to_py(m) for m in case["msgs"]]
@@ -1000,8 +1027,12 @@ def g_rich(rng, depth):
         from pathlib import Path
         p = str(Path(rng.choice(["", "/"]) + "/".join(segs)))
         return ["P", [ord(c) for c in p]]
-    if r < 0.27:
+    if r < 0.21:
         return ["D", rng.choice([1, 999, 1970, 2024, 9999]), rng.randrange(1, 13), rng.randrange(1, 29)]
+    if r < 0.27:
+        # datetimes: naive, UTC, and other offsets
+        return ["DT", rng.choice([1970, 2024, 2999]), rng.randrange(1, 13), rng.randrange(1, 29), rng.randrange(24), rng.randrange(60),
+                rng.randrange(60), rng.choice([0, 0, 1, 999999]), rng.choice([None, 0, 0, 60, -330, 765])]
     if r < 0.39:
         return ["T", rng.randrange(24), rng.randrange(60), rng.randrange(60), rng.choice([0, 0, 1, 500000, 999999])]
     if r < 0.51:
@@ -1084,6 +1115,8 @@ def gen_rich(rng, tier):
             fields = [[_str_tag("f%d" % j), g_rich_value(rng, 2)] for j in range(rng.choice([1, 2, 3]))]
             msgs.append(["o", fields])
         cases.append({"kind": kind, "jd": jd, "msgs": msgs, "filekind": rng.choice(["io", "io", "io", "none_write", "mode_lies"])})
+        if jd != "default" and i % 3 == 0:
+            cases[-1]["via_encoder"] = "eliot" if i % 2 else "stdlib"
     return cases
 
 
@@ -1092,7 +1125,7 @@ def describe_rich(case):
 
     def walk(t):
         k = t[0]
-        names = {"P": "Path", "D": "date", "T": "time", "S": "set", "C": "complex", "X": "extension-object", "U": "unsupported-object"}
+        names = {"P": "Path", "D": "date", "DT": "datetime", "T": "time", "S": "set", "C": "complex", "X": "extension-object", "U": "unsupported-object"}
         if k in names:
             tags.add(names[k])
         if k in ("a", "S"):
